@@ -531,8 +531,31 @@ def gen_case(rng, tier="quick"):
                  "corner_order": rng.choice([4, 4, 2, 3, 6]), "graph": rng.random() < 0.3,
                  "prior": {"only_border": False, "flag_corners": True, "corner_order": rng.choice([4, 4, 3, 8]),
                            "graph": False}})
+    # ONE detector object re-used: 2-4 runs on this mesh and on a second (small) mesh, options changed in between
+    session = None
+    if rng.random() < 0.6:
+        other = None
+        if rng.random() < 0.7:
+            r2 = rng.random()
+            if r2 < 0.4:
+                nv2, f2, c2, _ = gen_hinges(rng)
+            elif r2 < 0.7:
+                nv2, f2, c2, _ = gen_solid(rng)
+            else:
+                nv2, f2, _ = gen_topology(rng, size="tiny")
+                c2 = random_coords(rng, nv2, f2)
+            e2 = edges_of(f2)
+            h2 = [list(e) for e in e2 if rng.random() < 0.4] or None
+            other = {"nv": nv2, "faces": f2, "coords": c2, "hard": h2, "normals": None, "exact": False}
+        steps = []
+        for _ in range(rng.choice([2, 2, 3, 4])):
+            steps.append({"on": rng.choice([0, 1]) if other else 0, "only_border": rng.random() < 0.3,
+                          "flag_corners": rng.random() < 0.75, "corner_order": rng.choice([4, 4, 3, 6]),
+                          "graph": rng.random() < 0.5})
+        session = {"other": other, "steps": steps}
+    info["session"] = 0 if session is None else len(session["steps"])
     info["loops"] = len(loops)
     info["normals"] = "declared" if normals else "computed"
     info["hard"] = "none" if hard is None else ("all" if len(hard) == len(all_edges) else "some")
     return {"nv": nv, "faces": faces, "coords": coords, "hard": hard, "normals": normals, "exact": exact,
-            "starts": starts, "dets": dets, "info": info}
+            "starts": starts, "dets": dets, "session": session, "info": info}
